@@ -63,6 +63,7 @@ fn main() {
         "npo-pattern" => p3r_verif_harness::merklepath::cmd_pattern(&args[2..]),
         "poseidon-rows" => p3r_verif_harness::poseidonrows::cmd(&args[2..]),
         "whir" => p3r_verif_harness::whir::cmd(&args[2..]),
+        "lookup-bus" => p3r_verif_harness::lookupbus::cmd(&args[2..]),
         "ext-prov" => p3r_verif_harness::extprov::cmd(&args[2..]),
         "npo-start-sum" => p3r_verif_harness::merklepath::cmd_start_sum(&args[2..]),
         "alpha-chain" => p3r_verif_harness::alusched::cmd_alpha(&args[2..]),
